@@ -116,6 +116,10 @@ func paramDecremented() paramMigrator {
 		// if param is a number literal then we can do the decrementing now
 		asInt, err := strconv.Atoi(param)
 		if err == nil {
+			// a negative position counts from the end, in the old as in the new functions
+			if asInt < 0 {
+				return param
+			}
 			return strconv.Itoa(asInt - 1)
 		}
 
